@@ -639,6 +639,8 @@ def main(tier=None, replay=None):
         "selective flipping with the symplectic scheme (which never evaluates the wrapped field) is not part of the family",
         "the STM block of the variational system under selective flipping is not observed here (C03/C12)",
     ]
+    import c10ev
+    c10ev.run(ck)        # _propagate_dynsys with a terminal event: stamps, direction, state (Contracts.tla)
     return ck.finish()
 
 
